@@ -92,6 +92,9 @@ def setup(c, mods, ncomp=1, stderr_mode=None, cut_errors=True):
     helper.wcs = fl
     helper.ra_dec_order = True
     helper.psf_file = None
+    helper.refpix = (100.0, 80.0)
+    helper.pixscale = (-0.001, 0.001)
+    helper.beam = None
     pa_, pb_ = real('psfa'), real('psfb')
     c.assume(pa_.e > 0)
     c.assume(pb_.e > 0)
